@@ -109,8 +109,9 @@ func (l *lockingReader) SelectUtxo(from string, amount *big.Int, lock bool, excl
 
 // buildWorld commits real transactions so that the XModel of the node holds backing b:
 //
-//	block 1: A splits its genesis output into 10 x 100 (so every Transfer of a
-//	         program finds an unlocked output of the same size), B runs the harness
+//	block 1: A splits its genesis output into 10 x 100 (so a Transfer of a small
+//	         amount always finds an unlocked output of the same size), B gives C
+//	         2 x 2 (a payer that runs out; D holds nothing), B runs the harness
 //	         contract "put k v" for every key that is live or deleted
 //	block 2: B runs "del k" for every deleted key
 //
@@ -152,6 +153,19 @@ func buildWorld(b backing) (*bworld, error) {
 		outs[i] = world.Out{To: "A", Amount: "100"}
 	}
 	split := world.BuildTx(world.TxSpec{Initiator: "A", Ins: []world.In{{Tx: root, Offset: 0}}, Outs: outs, Nonce: "split"})
+	// B funds the payers of the model other than A out of its genesis output
+	// (payers[i].nOut outputs of payers[i].size each); the rest returns to B
+	// and pays the fees of the harness-contract transactions below
+	var fundOuts []world.Out
+	rest := new(big.Int).SetBytes(root.TxOutputs[1].Amount)
+	for _, p := range payers[1:] {
+		for i := 0; i < p.nOut; i++ {
+			fundOuts = append(fundOuts, world.Out{To: p.name, Amount: fmt.Sprint(p.size)})
+			rest.Sub(rest, big.NewInt(int64(p.size)))
+		}
+	}
+	fundOuts = append(fundOuts, world.Out{To: "B", Amount: rest.String()})
+	fund := world.BuildTx(world.TxSpec{Initiator: "B", Ins: []world.In{{Tx: root, Offset: 1}}, Outs: fundOuts, Nonce: "fund"})
 	var puts, dels []string
 	for i, st := range b {
 		if st != stAbsent {
@@ -161,7 +175,7 @@ func buildWorld(b backing) (*bworld, error) {
 			dels = append(dels, "del "+keyNames[i])
 		}
 	}
-	b1 := []*pb.Transaction{split}
+	b1 := []*pb.Transaction{split, fund}
 	var putTx, delTx *pb.Transaction
 	if len(puts) > 0 {
 		// read set: every key at its empty version; write set: the values
@@ -173,7 +187,7 @@ func buildWorld(b backing) (*bworld, error) {
 				outs = append(outs, &protos.TxOutputExt{Bucket: bktMain, Key: []byte(keyNames[i]), Value: []byte(liveValue(i))})
 			}
 		}
-		putTx, err = kvTx(w, "B", strings.Join(puts, ";"), world.In{Tx: root, Offset: 1}, "c10-put", ins, outs)
+		putTx, err = kvTx(w, "B", strings.Join(puts, ";"), world.In{Tx: fund, Offset: len(fundOuts) - 1}, "c10-put", ins, outs)
 		if err != nil {
 			return nil, err
 		}
@@ -248,6 +262,16 @@ func buildWorld(b backing) (*bworld, error) {
 			if val != delMarker {
 				return nil, fmt.Errorf("backing %s: deleted key %s = %q", b, keyNames[i], val)
 			}
+		}
+	}
+	// fixture sanity: every payer holds what the model says
+	for _, p := range payers {
+		bal, err := w.State.GetBalance(world.Addr(p.name))
+		if err != nil {
+			return nil, fmt.Errorf("backing %s: balance of %s: %v", b, p.name, err)
+		}
+		if bal.Cmp(big.NewInt(int64(p.balance()))) != 0 {
+			return nil, fmt.Errorf("backing %s: %s holds %s, the model says %d", b, p.name, bal, p.balance())
 		}
 	}
 	bw.utxo = w.State.CreateUtxoReader()
